@@ -92,18 +92,35 @@ def oracle_c08(root: Path, model: H.Model, k: int, violations: list, obs: Counte
 def oracle_create_refused(root: Path, hist: dict, violations: list, obs: Counter) -> None:
     from sedpack.io import Dataset, Metadata  # pylint: disable=import-outside-toplevel
     from sedpack.io.errors import DatasetExistsError  # pylint: disable=import-outside-toplevel
+    import os  # pylint: disable=import-outside-toplevel
     before = auditor.tree_digest(root)
     structure = dsmod.structure(hist["fmt"], hist["comp"], hist["eps"])
+    # the existing dataset is named in several spellings: absolute, relative to the working directory,
+    # with a redundant component, and through "~" (HOME pointed at the scratch directory)
+    cwd, home = os.getcwd(), os.environ.get("HOME")
+    spellings = {"absolute": str(root), "relative": root.name, "dotted": f"./{root.name}/.", "tilde": f"~/{root.name}",
+                 "pathlib": root}
     try:
-        Dataset.create(root, Metadata(description="clobber"), structure)
-        violations.append({"key": "create-not-refused", "msg": "Dataset.create on an existing dataset returned"})
-    except DatasetExistsError:
-        pass
-    except Exception as exc:  # pylint: disable=broad-exception-caught
-        # Any refusal is acceptable for the statement; record the type.
-        obs["create_refused_other_exception"] += 1
-        del exc
-    obs["refused_creates"] += 1
+        os.chdir(root.parent)
+        os.environ["HOME"] = str(root.parent)
+        for name, spelled in spellings.items():
+            try:
+                Dataset.create(spelled, Metadata(description="clobber"), structure)
+                violations.append({"key": f"create-not-refused/{name}",
+                                   "msg": f"Dataset.create({spelled!r}) on an existing dataset returned"})
+            except DatasetExistsError:
+                pass
+            except Exception as exc:  # pylint: disable=broad-exception-caught
+                # Any refusal is acceptable for the statement; record the type.
+                obs["create_refused_other_exception"] += 1
+                del exc
+            obs["refused_creates"] += 1
+    finally:
+        os.chdir(cwd)
+        if home is None:
+            os.environ.pop("HOME", None)
+        else:
+            os.environ["HOME"] = home
     after = auditor.tree_digest(root)
     if before != after:
         changed = sorted(set(before.items()) ^ set(after.items()))[:4]
